@@ -24,6 +24,9 @@ func init() {
 
 func runC15(p *eng.Prog, r *eng.Report, tier string) {
 	c := &cx{p, r, tier}
+	// C15.26 (= C09.17 / C10.10): no cycle in the lock-order graph: a deadlock between a
+	// writer and Close, or between the serve loop and a requester, ends every guarantee of this property
+	lockOrder(c, "C15.26")
 	c15CarrierTypes(c, "C15.24")
 	c.r.Floor("C15.25", "blocking channel operations in ibb", lockHeldAcrossChannelOp(c, "C15.25", "ibb."), 3)
 	c15Open(c)
